@@ -12,13 +12,14 @@ import json
 import os
 import re
 import struct
+import sys
 
 import vlib
 
 META = {
     "category": "proof",
     "text": "Coq theorems (Wire/Props_C15.v, closed under the global context) over an executable model of buffertk (varint fast/slow paths, stack packer filling a buffer of exactly pack_sz bytes), prototk (zig-zag, tags, field iterator, every field type) and a deep embedding of the message shapes prototk_derive accepts with the generic pack/unpack the macro generates: for every value of every well-formed shape pack fills exactly pack_sz bytes, the bytes equal an independent reference encoder of the protobuf wire format and unpack returns the value; unpack of arbitrary bytes is total for every shape (no panic, no out-of-bounds index or slice, no overflow, no fuel exhaustion), returns a suffix of its input and a value of the shape; unknown fields are skipped (insertion lemma, and the general theorem: an older reader decodes a newer writer's bytes to the projection of its value, at every nesting level); varint fast path = slow path = the 10-group specification, canonical form, zig-zag, tag acceptance/rejection, every scalar type; the model is tied to the code by 3-way differential runs (Rust vs extracted model vs independent Python reference) over 28 message types, boundary values, exhaustive short byte strings and 16 kinds of structure-aware mutation.",
-    "note": "Trusted: Coq kernel; tools/constants.py and the WIRE_TYPE extractor in checks/c15.py; ExtrOcamlBasic extraction + ocaml/wire driver; harness c15 (the derived type family and its text form); the schema descriptions in checks/c15.py mirror the Rust declarations by hand (a mismatch shows as a disagreement, not silently); std's from_utf8 is modelled (Unicode table 3-7) and compared; recursive message types, borrowed fields (&[u8], &str), PathBuf, Result<_, SError> payload text (handled crate) are not modelled.",
+    "note": "Trusted: Coq kernel; tools/constants.py, tools/shapes.py (declared message shapes -> Gen/Shapes_*.v) and the WIRE_TYPE extractor in checks/c15.py; ExtrOcamlBasic extraction + ocaml/wire driver; harness c15 (the derived type family and its text form); the schema descriptions in checks/c15.py mirror the Rust declarations by hand (a mismatch shows as a disagreement, not silently); std's from_utf8 is modelled (Unicode table 3-7) and compared; recursive message types, borrowed fields (&[u8], &str), PathBuf, Result<_, SError> payload text (handled crate) are not modelled.",
 }
 
 PROPS = "theories/Wire/Props_C15.v"
@@ -99,10 +100,13 @@ def resolve(t):
     return t
 
 
+DECL = {}      # "crate::shape_X" -> description, filled from tools/shapes.py --json
+
+
 def msg_of(ty):
     """for a field type that is a message: its description (S/E/R)"""
     if ty[0] == "M":
-        return TYPES[ty[1]]
+        return TYPES[ty[1]] if ty[1] in TYPES else DECL[ty[1]]
     if ty[0] == "R":
         return ty
     raise ValueError(ty)
@@ -586,10 +590,10 @@ def known_numbers(m):
 
 # ------------------------------------------------------------------------------------- the cases
 class Case:
-    __slots__ = ("impl", "model", "expect", "tag", "must_not_panic")
+    __slots__ = ("impl", "model", "expect", "tag", "needs_rt")
 
-    def __init__(self, impl, model, expect, tag):
-        self.impl, self.model, self.expect, self.tag = impl, model, expect, tag
+    def __init__(self, impl, model, expect, tag, needs_rt=False):
+        self.impl, self.model, self.expect, self.tag, self.needs_rt = impl, model, expect, tag, needs_rt
 
 
 def enc_case(name, v, tag):
@@ -831,8 +835,101 @@ def opaque_cases(rng, n, stats):
             v = [V(0, gen_msg(rng, INNER))]
         else:
             v = [V(1, rng.choice(codes).encode())]
-        out.append(Case("enc ResS " + val_text(v), None, None, "opaque-enc"))
+        out.append(Case("enc ResS " + val_text(v), None, None, "opaque-enc", needs_rt=True))
         stats["opaque"] += 1
+    return out
+
+
+def decl_desc(js):
+    """JSON shape of tools/shapes.py -> the description format of this module"""
+    def ty(t):
+        return t if isinstance(t, str) else ("M", t[1]) if t[0] == "M" else ("R", t[1], t[2])
+
+    def flds(fs):
+        return [(f[0], f[1], ty(f[2])) for f in fs]
+
+    if js[0] == "S":
+        return ("S", flds(js[1]))
+    vs = []
+    for v in js[1]:
+        vs.append(("u", v[1]) if v[0] == "u" else ("o", v[1], ty(v[2])) if v[0] == "o" else ("n", v[1], flds(v[2])))
+    return ("E", vs)
+
+
+def desc_problems(m):
+    """the side conditions of the theorems (msg_wf), on the description: duplicate / invalid field numbers"""
+    out = []
+
+    def nums_ok(nums, where):
+        if len(set(nums)) != len(nums):
+            out.append("%s: duplicate field number in %s" % (where, sorted(nums)))
+        for n in nums:
+            if n < 1 or n > 2**29 - 1 or 19000 <= n <= 19999:
+                out.append("%s: invalid field number %d" % (where, n))
+
+    def go(m, where):
+        if m[0] == "S":
+            nums_ok([f[0] for f in m[1]], where)
+            for f in m[1]:
+                if is_msg(f[2]) and f[2][0] == "M":
+                    pass
+        elif m[0] == "E":
+            nums_ok([v[1] for v in m[1]], where)
+            for v in m[1]:
+                if v[0] == "n":
+                    nums_ok([f[0] for f in v[2]], where + " variant %d" % v[1])
+    go(m, "")
+    return out
+
+
+def declared_cases(rng, shapes, n_values, n_mut, stats, info):
+    """values generated from the SHAPES the repository declares (tools/shapes.py), for the types the
+    harness reaches: the real type decodes the reference encoding and encodes it again"""
+    out = []
+    DECL.clear()
+    for key, t in shapes["types"].items():
+        DECL[key] = decl_desc(t["shape"])
+    reached = []
+    for key, t in sorted(shapes["types"].items()):
+        r = reachable(key, t)
+        probs = desc_problems(DECL[key])
+        if probs:
+            info["shape_problems"][key] = probs
+        if r is None:
+            continue
+        rname = "sst::%s" % r[1] if r[0] == "sst" else "prototk::%s::%s" % (r[1], r[2])
+        reached.append(rname)
+        m = DECL[key]
+        st = schema_text(m)
+        known = known_numbers(m)
+        for k in range(n_values):
+            v = gen_msg(rng, m)
+            body = ref_msg(m, v)
+            if len(body) > 3000:
+                continue
+            exp = "ok %s rest=" % body.hex()
+            out.append(Case("repack %s %s" % (rname, body.hex()), "repack %s; %s" % (st, body.hex()), exp, "decl-roundtrip-" + rname))
+            stats["decl_roundtrip"] += 1
+            if m[0] == "E":
+                tail = rng.bytes(rng.range(1, 4))
+                out.append(Case("repack %s %s" % (rname, (body + tail).hex()), "repack %s; %s" % (st, (body + tail).hex()),
+                                "ok %s rest=%s" % (body.hex(), tail.hex()), "decl-rest-" + rname))
+                stats["decl_roundtrip"] += 1
+            for _ in range(n_mut):
+                b, kind, preserving = mutate(rng, body, known, stats)
+                if len(b) > 4000:
+                    continue
+                if preserving and m[0] == "S":
+                    out.append(Case("repack %s %s" % (rname, b.hex()), "repack %s; %s" % (st, b.hex()), exp, "decl-%s-%s" % (kind, rname)))
+                    stats["decl_value_preserving"] += 1
+                elif t["default_like_model"]:
+                    out.append(Case("repack %s %s" % (rname, b.hex()), "repack %s; %s" % (st, b.hex()), None, "decl-%s-%s" % (kind, rname)))
+                    stats["decl_mutated"] += 1
+                else:
+                    # the type's own Default impl is not the model's: only "no panic" is checked
+                    out.append(Case("repack %s %s" % (rname, b.hex()), None, None, "decl-nopanic-%s-%s" % (kind, rname)))
+                    stats["decl_mutated_nopanic"] += 1
+    info["reached"] = reached
     return out
 
 
@@ -910,6 +1007,73 @@ def gen_wire_types():
     return problems
 
 
+HARNESS_GEN = os.path.join(vlib.VERIF, "harness", "src", "c15_gen")
+SHAPE_PREFIX_RE = re.compile(r"^shape_(tests_[a-z_0-9]+?)_([A-Z][A-Za-z0-9_]*)$")
+
+
+def run_shapes():
+    """tools/shapes.py --json: the declared message shapes (also regenerates Gen/Shapes_*.v)"""
+    rc, out = vlib.sh([sys.executable, os.path.join(vlib.VERIF, "tools", "shapes.py"), "--json"])
+    if rc != 0:
+        return None, out[-1500:]
+    for ln in reversed(out.strip().splitlines()):
+        if ln.startswith("{"):
+            return json.loads(ln), ""
+    return None, "no JSON in the translator's output"
+
+
+def reachable(key, info):
+    """how the harness reaches a declared type: ('sst', Type) through sst::verif_repack, ('pt', stem, Type)
+    through the included copy of prototk's test declarations, or None"""
+    crate, coq = key.split("::")
+    if crate == "sst" and info["path"].startswith("sst/src/"):
+        return ("sst", info["rust"])
+    if crate == "prototk" and info["path"].startswith("prototk/tests/"):
+        return ("pt", os.path.basename(info["path"])[:-3], info["rust"])
+    return None
+
+
+def gen_harness_arms(shapes):
+    """harness/src/c15_gen/: the declarations of prototk's test files (verbatim but for the `extern
+    crate` lines, which are only legal at a crate root) and one dispatch arm per expressible type"""
+    os.makedirs(HARNESS_GEN, exist_ok=True)
+    files = {}
+    by_stem = {}
+    for key, info in sorted(shapes["types"].items()):
+        r = reachable(key, info)
+        if r and r[0] == "pt":
+            by_stem.setdefault(r[1], []).append(r[2])
+    arms = ["// GENERATED by checks/c15.py from /repo's working tree on every run. DO NOT EDIT.",
+            "// prototk's test declarations, included so that the real derive macro expands them here"]
+    tests_dir = os.path.join(vlib.REPO, "prototk", "tests")
+    for stem in sorted(by_stem):
+        with open(os.path.join(tests_dir, stem + ".rs")) as fh:
+            src = fh.read()
+        src = re.sub(r"(?m)^\s*(#\[macro_use\]\s*)?extern\s+crate\s+[A-Za-z_0-9]+\s*;\s*$", "", src)
+        src = re.sub(r"(?m)^\s*#\[macro_use\]\s*$", "", src)
+        if not re.search(r"(?m)^\s*use\s+prototk_derive::Message\s*;", src):
+            src = "use prototk_derive::Message;\n" + src
+        files["pt_%s.rs" % stem] = "// GENERATED copy of prototk/tests/%s.rs (extern crate lines removed). DO NOT EDIT.\n" % stem + src
+        arms.append("#[allow(warnings)]\nmod pt_%s {\n    include!(\"pt_%s.rs\");\n    pub fn repack(name: &str, buf: &[u8]) -> Option<Result<(Vec<u8>, usize), String>> {\n        match name {" % (stem, stem))
+        for t in sorted(set(by_stem[stem])):
+            arms.append("            \"%s\" => Some(crate::repack_as::<%s>(buf))," % (t, t))
+        arms.append("            _ => None,\n        }\n    }\n}")
+    arms.append("pub fn gen_repack(file: &str, name: &str, buf: &[u8]) -> Option<Result<(Vec<u8>, usize), String>> {\n    match file {")
+    for stem in sorted(by_stem):
+        arms.append("        \"%s\" => pt_%s::repack(name, buf)," % (stem, stem))
+    arms.append("        _ => None,\n    }\n}")
+    files["arms.rs"] = "\n".join(arms) + "\n"
+    for fn, text in files.items():
+        p = os.path.join(HARNESS_GEN, fn)
+        old = open(p).read() if os.path.exists(p) else None
+        if old != text:
+            with open(p, "w") as fh:
+                fh.write(text)
+    for fn in os.listdir(HARNESS_GEN):
+        if fn not in files:
+            os.remove(os.path.join(HARNESS_GEN, fn))
+
+
 def classify(line):
     if line is None:
         return "none"
@@ -921,10 +1085,17 @@ def classify(line):
 
 def run(chk):
     wt_problems = gen_wire_types()
+    shapes, shapes_err = run_shapes()
+    if shapes is not None:
+        gen_harness_arms(shapes)
     ok_proof, info = vlib.proof_stage(chk, PROPS, MODULE, const_areas=("Wire",), pins_rel="pins/C15.v")
     for p in wt_problems:
         info["broken"].append("wire-type extractor: " + p)
         ok_proof = False
+    if shapes is None:
+        info["broken"].append("shape translator (tools/shapes.py) failed: " + shapes_err)
+        ok_proof = False
+        shapes = {"types": {}, "inexpressible": {}, "notes": [], "crates": {}}
 
     okx, outx = vlib.coq_make(["theories/Wire/Extract.vo"])
     okm, outm, mx = vlib.ocaml_build("wire", "mx_wire")
@@ -939,7 +1110,8 @@ def run(chk):
     keys = ["v64d", "v64e", "zigzag", "tag", "sc", "scd", "enc", "enc_boundary", "dec", "dec_value_preserving", "dec_cross_type",
             "dec_evolution", "dec_later_occurrence", "dec_exhaustive", "opaque", "mut_truncate", "mut_extend", "mut_bitflip", "mut_setbyte", "mut_insert",
             "mut_nonminimal_tag", "mut_nonminimal_varint", "mut_unknown_field", "mut_bad_number_or_wiretype", "mut_duplicate_field",
-            "mut_swap_fields", "mut_nested", "mut_length", "mut_random"]
+            "mut_swap_fields", "mut_nested", "mut_length", "mut_random",
+            "decl_roundtrip", "decl_value_preserving", "decl_mutated", "decl_mutated_nopanic"]
     stats = {k: 0 for k in keys}
     cases = corpus_cases()
     ncorpus = len(cases)
@@ -950,6 +1122,8 @@ def run(chk):
     cases += message_cases(mal, 7000 if not thorough else 40000, 8 if not thorough else 12, stats)
     cases += exhaustive_cases(rng.fork(), thorough, stats)
     cases += opaque_cases(rng.fork(), 200 if not thorough else 5000, stats)
+    decl_info = {"shape_problems": {}, "reached": []}
+    cases += declared_cases(rng.fork(), shapes, 40 if not thorough else 1500, 4 if not thorough else 8, stats, decl_info)
 
     rc1, impl_out = run_lines(hxbin, [c.impl for c in cases], chk.work, "impl")
     mcases = [c for c in cases if c.model is not None]
@@ -980,7 +1154,7 @@ def run(chk):
         elif c.expect is not None and io != c.expect:
             rec["what"] = "implementation output differs from the independent reference (wire format / round trip / skipped unknown fields)"
             prop_bad.append(rec)
-        elif c.model is None and " rt=ok " not in io:
+        elif c.needs_rt and " rt=ok " not in io:
             rec["what"] = "round trip of an unmodelled shape failed"
             prop_bad.append(rec)
         elif mo is not None and io != mo:
@@ -992,11 +1166,21 @@ def run(chk):
         "samples": [c.impl[:300] for c in (cases[ncorpus + 5], cases[len(cases) // 2], cases[-300])],
         "input_distribution": {"ops": stats, "impl_outcomes": outcome, "decode_input_sizes": sizes},
         "corpus_cases": ncorpus,
+        "declared_shapes": {
+            "translator": "tools/shapes.py (run by vlib.gen_constants on every build and by this check)",
+            "types_expressed": len(shapes["types"]), "per_crate": shapes["crates"],
+            "not_expressible": shapes["inexpressible"], "notes": shapes["notes"],
+            "side_condition_problems": decl_info["shape_problems"],
+            "reached_by_harness": decl_info["reached"],
+            "instantiated_in": "coq/theories/Wire/Instances.v (declared_roundtrip, declared_unpack_total, declared_skip_unknown, declared_reads_newer over Gen.Shapes_all.all_shapes); per type `shape_<T>_wf` in Gen/Shapes_<crate>.v",
+        },
         "correspondence": "impl (Rust, release + overflow-checks + debug-assertions) vs extracted Coq model vs independent Python reference of the wire format, 3-way",
         "disagreements_impl_vs_model": len(corr_bad), "disagreements_impl_vs_spec": len(prop_bad),
         "trusted_base": [
             "Coq 8.16.1 kernel (coqc, full .vo build); vm_compute used for finite byte-table facts and witnesses",
             "tools/constants.py (field-number limits) and the WIRE_TYPE / WireType::new / tag_bits extractor in checks/c15.py (Wire/GenWT.v)",
+            "tools/shapes.py: the translator from #[derive(Message)] declarations to Gen/Shapes_<crate>.v (trusted for: the shape is the declaration; it mirrors which Rust types are containers / native byte strings; compared with the real derive on the sst and prototk-test types by the repack runs)",
+            "sst::verif_repack (hook, cfg(blue_verif)) and harness/src/c15_gen/ (generated: prototk's test declarations minus `extern crate` lines, one dispatch arm per declared type)",
             "extraction via ExtrOcamlBasic (no Extract Constant of ours) + ocaml/wire/mx_wire.ml driver (schema / value text parsers)",
             "harness/src/bin/c15.rs: the derived type family, its Default impls and its value text; checks/c15.py mirrors the declarations by hand",
             "the derive macro's expansion is exercised through the type family and compared with the generic model encoder / decoder, not verified",
